@@ -148,6 +148,7 @@ func cmdGen(args []string) {
 			} else {
 				bes = strings.Split(*backends, ",")
 			}
+			p.NoGenIds = len(bes) > 1
 			evs, u := generate(p, tseed)
 			header := E{"profile": p.Name, "seed": tseed, "numTable": p.NumTable, "timeTable": p.TimeTable, "backends": strings.Join(bes, ",")}
 			lines, stats := runTrace(u, bes, evs, header, true, p.ReadAudit, tseed)
